@@ -39,8 +39,14 @@ Inductive case :=
      the head of the sub-pipeline recorded in order — EvX: a datagram/TCP query arrived upstream, with the
      tree's ledger counters read at that moment; EvS: a sub-pipeline run started, with the values its context
      carries (queryerDepthKey, best-effort mark, cnameChaseDepthKey, contextKeyDnameDepth, contextKeyNSL) and the
-     counters; EvE: it returned.  [treechk]: the sub-runs of this topology are sequential (no detached IPv6 walk) *)
-| CaseTrace (mode max_out max_int : N) (v6 treechk : bool) (evs : list event)
+     counters; EvE: it returned.  [treechk]: the sub-runs of this topology are sequential (no detached IPv6 walk).
+     [pairs]: for every sub-run the label of the run it was started from (the probe hands its identity down the context;
+     None: no probe above it — a detached job) and its own label *)
+| CaseTrace (mode max_out max_int : N) (v6 treechk : bool) (evs : list event) (pairs : list (option slabel * slabel))
+  (* the forwarder against scripted upstreams, one behaviour per configured upstream in order — 0: answers; 1: TC=1 over
+     UDP, answers over TCP; 2: TC=1 over UDP, SERVFAIL over TCP; 3: SERVFAIL —: datagrams + TCP queries the upstreams
+     received, the ledger's outbound counter, the reply (0 answer / 1 policy SERVFAIL with the work EDE / 2 plain SERVFAIL) *)
+| CaseFwd (mode max_out : N) (script : list N) (packets led_out reply : N)
   (* same topology resolved with the firewall off and in shadow mode: canonical replies *)
 | CaseLabEq (fam p1 p2 : N) (qmin : bool) (reply_off reply_shadow : list N) (packets_off packets_shadow : N).
 
@@ -72,6 +78,13 @@ Definition ede_cached_error : N := 13.
 
 Definition fam_dname : N := 3.
 Definition fam_deep : N := 1.
+
+(* the adversary of the forwarder program that a script of upstream behaviours amounts to: guard admits (0), then the
+   outcome of the UDP attempt, then — after a truncated answer — guard admits (0) and the outcome of the TCP attempt *)
+Definition fwd_choices (beh : N) : list nat :=
+  if beh =? 0 then [0; 0]%nat else if beh =? 1 then [0; 1; 0; 0]%nat else if beh =? 2 then [0; 1; 0; 1]%nat else [0; 2]%nat.
+Definition fwd_adv (script : list N) : nat -> nat := fun j => nth j (concat (map fwd_choices script)) 0%nat.
+Definition reply_code (r : reply) : N := match r with ReplyOk => 0 | ReplyWork _ true => 1 | _ => 2 end.
 
 Definition check_case (c : case) : bool :=
   match c with
@@ -113,15 +126,21 @@ Definition check_case (c : case) : bool :=
       (negb ((mode =? mode_enforce) && negb (first =? 0)) ||
        ((rcode =? rcode_servfail) &&
         (negb edns || (ede =? 1 + (if go_RecursionWorkKind_isDNSSEC (first - 1) then 9 else ede_other)))))
-  | CaseTrace mode max_out max_int v6 treechk evs =>
-      (* the real event sequence passes the two checkers every trace of the skeleton passes
-         (budgets_hold_at_every_step, subquery_call_tree) *)
+  | CaseTrace mode max_out max_int v6 treechk evs pairs =>
+      (* the real event sequence passes the checkers every trace of the skeleton passes
+         (budgets_hold_at_every_step, subquery_call_tree, subquery_pairs) *)
       ((mode =? mode_off) || steps_ok (mode =? mode_enforce) max_out max_int 0 0 0 0 evs) &&
+      forallb (pair_ok v6) pairs &&
       (negb treechk ||
        match tree_run v6 (mk_sl 0 cx0) [] evs with
        | Some (mk_sl O (mk_cx false O O false), []) => true
        | _ => false
        end)
+  | CaseFwd mode max_out script packets led_out reply =>
+      (* the forwarder is sequential: the model computes exactly what the upstreams received and what the client got *)
+      let pol := mk_T_RecursionWorkPolicy mode max_out 32 4 8 32 32 32 32 in
+      let '(w, r) := run (fwd_adv script) (forward false (length script)) (w_init (new_ledger pol)) in
+      (w_exch w =? packets) && ((mode =? mode_off) || (l_out (w_led w) =? led_out)) && (reply_code r =? reply)
   | CaseLabEq fam p1 p2 qmin reply_off reply_shadow packets_off packets_shadow =>
       list_eqb N.eqb reply_off reply_shadow
   | CaseCrowd k tiny over reply_after reply_fresh =>
@@ -207,7 +226,7 @@ Definition spec_case (c : case) : bool :=
         ((first =? 0) ||
          ((rcode =? 2) && (negb edns || negb (ede =? 0)) &&
           (negb resolvable || negb (ede2 =? 1 + 13))))))
-  | CaseTrace mode max_out max_int v6 treechk evs =>
+  | CaseTrace mode max_out max_int v6 treechk evs pairs =>
       (* enforce: no more upstream arrivals than the outbound budget, no more sub-pipeline runs than the
          internal budget; in every mode no sub-run nests deeper than 32, chases deeper than 10 or follows
          DNAMEs deeper than 10 (the numbers of the property text) *)
@@ -215,9 +234,16 @@ Definition spec_case (c : case) : bool :=
       let ss := N.of_nat (length (filter (fun e => match e with EvS _ _ _ => true | _ => false end) evs)) in
       (negb (mode =? 2) || ((xs <=? max_out) && (ss <=? max_int))) &&
       forallb (fun e => match e with
-                        | EvS (mk_sl n (mk_cx _ ch dn _)) _ _ => (n <=? 32)%nat && (ch <=? 10)%nat && (dn <=? 10)%nat
+                        | EvS (mk_sl n (mk_cx _ ch dn _)) _ _ | EvS (mk_dl n (mk_cx _ ch dn _)) _ _ =>
+                            (n <=? 32)%nat && (ch <=? 10)%nat && (dn <=? 10)%nat
                         | _ => true
                         end) evs
+  | CaseFwd mode max_out script packets led_out reply =>
+      (* at most two transport attempts per upstream; enforce: never more than the outbound budget, and a request that ran
+         into it is answered with the policy SERVFAIL; shadow / off: the budget changes nothing *)
+      (packets <=? 2 * N.of_nat (length script)) &&
+      (if mode =? 2 then (packets <=? max_out) && (negb (reply =? 1) || (packets =? max_out))
+       else negb (reply =? 1))
   | CaseLabEq fam p1 p2 qmin reply_off reply_shadow packets_off packets_shadow =>
       list_eqb N.eqb reply_off reply_shadow
   | CaseCrowd k tiny over reply_after reply_fresh => list_eqb N.eqb reply_after reply_fresh
